@@ -250,16 +250,21 @@ int main(int argc, char **argv)
             {
                 if(!exact) s = (double)steps.a[(size_t)(calls % (long long)steps.a.size())].num() / 1e6;
                 size_t from = glog.size();
+                long long prevTell = tellUs();
                 double r = opn2_tickEvents(dev, s, (double)gran / 1e6);
                 drainTap();
                 int atend = opn2_atEnd(dev);
-                w.begin_arr();
-                w.num(tlcint((long long)llround(s * 1e6))); w.num(tellUs()); w.num(tlcint((long long)llround(r * 1e6))); w.num(atend);
-                writeLog(w, from);
-                w.end_arr();
+                if(glog.size() > from || atend || exact)   // calls that delivered nothing are summarised by ncalls
+                {
+                    w.begin_arr();
+                    w.num(tlcint((long long)llround(s * 1e6))); w.num(tellUs()); w.num(tlcint((long long)llround(r * 1e6))); w.num(atend);
+                    writeLog(w, from);
+                    w.num(prevTell);
+                    w.end_arr();
+                }
                 ++calls;
                 if(g_trunc || glog.size() - playStart >= 6000) { trunc = 1; break; } // zero-length endless loops: keep the trace bounded
-                if(exact) s = r / g_mult;
+                if(exact) s = r;
                 if(atend) { if(++endSeen >= 2) break; }
                 if(untilUs >= 0 && tellUs() >= untilUs) break;
             }
@@ -280,9 +285,12 @@ int main(int argc, char **argv)
                 long long f0 = tap->frames;
                 int r = opn2_play(dev, n, pcm.data());
                 drainTap();
-                w.begin_arr(); w.num(n); w.num(r); w.num(tlcint(f0)); w.num(tlcint(tap->frames)); w.num(tellUs()); w.num(opn2_atEnd(dev));
-                writeLog(w, from);
-                w.end_arr();
+                if(glog.size() > from || r != n - (n % 2))
+                {
+                    w.begin_arr(); w.num(n); w.num(r); w.num(tlcint(f0)); w.num(tlcint(tap->frames)); w.num(tellUs()); w.num(opn2_atEnd(dev));
+                    writeLog(w, from);
+                    w.end_arr();
+                }
                 ++calls;
                 if(r == 0 && n >= 2) { if(++zero >= 1) break; }
             }
